@@ -21,12 +21,29 @@ script = [step, ...]   (JSON)
   ["parse", ts]                       _timestamp_parse(ts)       (the anchored function on its own)
   ["rebuild", out, v, how]            out := Event(**v) (how = "event") | Event(**json.loads(v.to_json_str())) ("json")
   ["put", v, key, value]              v.data[key] = value        (in place)
+  ["json", v] | ["dict", v]           v.to_json_str() | v.to_json_dict() as an operation of its own (its result must be
+                                      the event's JSON form)
+  ["fault", step, [callee, exc, nth]] the step with the nth call of the named callee (CALLEE_NAMES) raising exc ONCE
+                                      (harness/twothreads.py: raising_once): a fault the caller survives.  Expectation:
+                                      a call that raised changed nothing - every live event is re-observed against
+                                      the values it was given last
+  ["interleave", stepA, stepB, callee, nth]   two threads (harness/twothreads.py): stepA runs until it is inside its
+                                      nth call of the callee, stepB runs from start to end, every live event that A
+                                      does not write is observed, then A finishes.  Expectation: the sequential
+                                      model's answer for each thread's own input
+  ["quiet", step]                     the step (any of the above) WITHOUT the observation that normally follows it: the
+                                      observation is itself a sequence of library calls (JSON, Event(**json)) and
+                                      would come between the step and the next one; what was left to observe is
+                                      observed after the next ordinary step
+data values: JSON, or a marker {"$": "bigint" | "deep" | "bytes" | "set" | "tuplekey" | "cycle"} for a value json.dumps
+refuses (mat_data): the natural ways to make the serialiser raise.  dur {"kind": "bad", "what": ...}: not a duration.
 ts  = {"form": "dt", "utc": us, "off": us} | {"form": "naive", "local": us} | {"form": "str", "text": s, "instant": [p, q] | null,
        "off": us} | {"form": "zone", "zone": zspec, "wall": us, "fold": 0 | 1}      (wall = wall-clock fields as µs since 1970)
 zspec = ["iana", key] | ["synth", t_us, before_min, after_min, name]
 dur = {"kind": "td", "us": n} | {"kind": "int", "s": n} | {"kind": "float", "hex": h}"""
 import copy
 import json
+import sys
 from datetime import datetime, timedelta, timezone
 from fractions import Fraction
 
@@ -93,14 +110,103 @@ def materialise_ts(ts, c13):
 def materialise_dur(du, c13):
     if du["kind"] == "float":
         return c13.dur_variant("float", float.fromhex(du["hex"]))
+    if du["kind"] == "bad":       # not a duration at all (outside the quantifier): only what a FAILED assignment leaves behind is judged
+        obj = {"str": "1.5", "none": None, "fraction": Fraction(1, 3), "list": [1], "complex": 1j}[du["what"]]
+        return ({"kind": "bad", "what": du["what"]}, obj, None)
     return c13.dur_variant(du["kind"], du["us"] if du["kind"] == "td" else du["s"])
 
 
-def observe_event(e, c13, validator, labels):
+def has_special(x):
+    """does the data spec contain a {"$": ...} marker (a value json.dumps cannot encode)?"""
+    if isinstance(x, dict):
+        return "$" in x or any(has_special(v) for v in x.values())
+    if isinstance(x, list):
+        return any(has_special(v) for v in x)
+    return False
+
+
+def mat_data(x):
+    """data spec (JSON; kept in the script and in `given`) -> a fresh Python value.  Plain JSON is copied; a marker
+    {"$": kind} becomes a value the JSON encoder of this interpreter refuses - the NATURAL ways to make json.dumps
+    raise under a caller that survives: "bigint" (more digits than sys.get_int_max_str_digits(): ValueError), "deep"
+    (nested beyond the recursion limit: RecursionError), "bytes" / "set" (TypeError), "tuplekey" (TypeError: keys must
+    be str, ...), "cycle" (ValueError: circular reference)"""
+    if isinstance(x, dict):
+        if "$" in x:
+            kind = x["$"]
+            if kind == "bigint":
+                return 10 ** x.get("digits", 5000)
+            if kind == "deep":
+                v = []
+                for _ in range(x.get("depth", 3 * sys.getrecursionlimit())):
+                    v = [v]
+                return v
+            if kind == "bytes":
+                return b"bytes"
+            if kind == "set":
+                return {1, 2}
+            if kind == "tuplekey":
+                return {(1, 2): 3}
+            if kind == "cycle":
+                v = [1]
+                v.append(v)
+                return v
+            raise ValueError("unknown data marker %r" % (x,))
+        return {k: mat_data(v) for k, v in x.items()}
+    if isinstance(x, list):
+        return [mat_data(v) for v in x]
+    return x
+
+
+# callees of aw_core.models that can be made to raise once / to suspend one thread (harness/twothreads.py)
+CALLEE_NAMES = ["iso8601.parse_date", "json.dumps", "json.encode", "Event.copy", "copy.copy", "copy.deepcopy",
+                "zone.utcoffset", "logging.warning"]
+EXCEPTIONS = {"MemoryError": MemoryError, "RecursionError": RecursionError, "ValueError": ValueError, "TypeError": TypeError,
+              "KeyboardInterrupt": KeyboardInterrupt, "OSError": OSError}
+_CALLEES = {}
+WAIT_S = 8.0          # a thread that has not finished after this long is reported as C13:timeout
+SESSION_S = 20.0      # a whole session (a few dozen calls; milliseconds) that has not finished after this long likewise
+
+
+def callees(Event):
+    """name -> twothreads.Callee (patch sites computed once, in the pristine snapshot)"""
+    if not _CALLEES:
+        import logging
+        import iso8601
+        from . import twothreads as tt
+        for name, owner, attr in (("iso8601.parse_date", iso8601, "parse_date"), ("json.dumps", json, "dumps"),
+                                  ("json.encode", json.JSONEncoder, "encode"), ("Event.copy", Event, "copy"),
+                                  ("copy.copy", copy, "copy"), ("copy.deepcopy", copy, "deepcopy"),
+                                  ("zone.utcoffset", SynthZone, "utcoffset"), ("logging.warning", logging.Logger, "warning")):
+            c = tt.Callee(owner, attr, label=name)
+            c.sites()
+            _CALLEES[name] = c
+    return _CALLEES
+
+
+def held_view(e):
+    """what the event HOLDS, through its public attributes: (type name, value) of timestamp and duration"""
+    try:
+        ts, du = e.timestamp, e.duration
+    except Exception as ex:  # noqa: BLE001
+        return ("raises", type(ex).__name__)
+    return (type(ts).__name__, ts, type(du).__name__, du)
+
+
+def observe_event(e, c13, validator, labels, encodable=True):
     """what run_event_impl of c13.py records, for an event that already exists"""
+    before = held_view(e)
+    ts, du = (before[1], before[3]) if len(before) == 4 else (None, None)
+    if not (isinstance(ts, datetime) and ts.tzinfo is not None and isinstance(du, timedelta)):
+        # the event does not even hold a (aware datetime, timedelta) pair: nothing else can be observed
+        what = ("reading its attributes raises %s" % before[1]) if len(before) == 2 else \
+            "timestamp is %s %r, duration is %s %r" % before
+        return [2, 0], {"event": e, "held_type": what}
     obs = {"event": e, "utc": e.timestamp.utcoffset() == timedelta(0), "is_td": isinstance(e.duration, timedelta)}
+    if not encodable:
+        obs["unencodable"] = True        # the data given is not JSON data here: the JSON clauses say nothing
     Event = type(e)
-    wire = [0] + c13.enc_event_impl(e, labels)
+    wire = [0] + c13.enc_event_impl(e, labels if encodable else common.Labels())
     try:
         d = json.loads(e.to_json_str())
         obs["json"] = d
@@ -120,21 +226,45 @@ def observe_event(e, c13, validator, labels):
     try:
         e3 = Event(**e)
         obs["e3"] = e3
-        wire += [0] + c13.enc_event_impl(e3, labels)
+        if encodable:
+            wire += [0] + c13.enc_event_impl(e3, labels)
     except Exception as ex:  # noqa: BLE001
         obs["e3_error"] = type(ex).__name__
         wire += fc.res_wire_err(ex)
+    after = held_view(e)
+    if not (len(after) == 4 and after[0] == before[0] and after[2] == before[2] and after[1] == before[1]
+            and after[1].utcoffset() == before[1].utcoffset() and after[3] == before[3]):
+        # to_json_str / Event(**json) / Event(**event) only READ the event, whether they return or raise
+        obs["held_changed"] = "reading the event (to_json_str%s, Event(**event)) changed what it holds: before %r, after %r" % (
+            " raised %s" % obs["json_error"] if "json_error" in obs else "", before, after)
     return wire, obs
 
 
-def run_script(script, c13, Event, parse, validator):
-    """-> (observations, findings): observations [(step, var, term, wire)] (model term of the values the event was
-    given and what the implementation holds), findings [(step, signature, message)] of the property oracle."""
-    live = {}       # var -> [event, given = {"id", "ts", "dur", "data"}]
-    observations, findings = [], []
-    for k, st in enumerate(script):
+class _Op:
+    """one step, split into: arguments already materialised | call() = the library call only | commit"""
+
+    def __init__(self, name, var=None, writes=None, call=None, ok=None, err=None, observe=True):
+        self.name, self.var, self.writes, self.call, self.ok, self.err, self.observe = name, var, writes, call, ok, err, observe
+
+
+class _Session:
+    def __init__(self, c13, Event, parse, validator):
+        self.c13, self.Event, self.parse, self.validator = c13, Event, parse, validator
+        self.live = {}       # var -> [event, given = {"id", "ts", "dur", "data"}]   (data: the SPEC, see mat_data)
+        self.observations, self.findings = [], []
+        self.k = 0
+        self.results = []    # (var, "json" | "dict", value) returned by a json / dict step, judged at the next observation
+        self.pending = []    # failed constructor / setter calls of quiet steps, for the next observation
+        self.stats = {}
+
+    def count(self, key):
+        self.stats[key] = self.stats.get(key, 0) + 1
+
+    # -- steps ------------------------------------------------------------------------------------------------
+    def prepare(self, st):
+        """-> _Op, or None when the step refers to an event that does not exist (shrunk scripts)"""
+        c13, live, Event = self.c13, self.live, self.Event
         op = st[0]
-        failed = None            # (var, given, exception) of a constructor / setter that raised
         if op == "new":
             _, v, i, ts, du, x = st
             given = {"id": i, "ts": ts, "dur": du if du is not None else {"kind": "td", "us": 0},
@@ -143,100 +273,265 @@ def run_script(script, c13, Event, parse, validator):
             if du is not None:
                 kw["duration"] = materialise_dur(du, c13)[1]
             if x is not None:           # null = the argument is left out (the constructor's own default)
-                kw["data"] = copy.deepcopy(x)
-            try:
-                live[v] = [Event(id=i, timestamp=materialise_ts(ts, c13)[1], **kw), given]
-            except Exception as ex:  # noqa: BLE001
-                failed = (v, given, ex)
-        elif op == "set":
+                kw["data"] = mat_data(x)
+            tobj = materialise_ts(ts, c13)[1]
+
+            def ok(e):
+                live[v] = [e, given]
+                if given["dur"]["kind"] == "bad":
+                    live.pop(v)          # accepted something that is not a duration: outside the property
+            return _Op("new", var=v, writes=v, call=lambda: Event(id=i, timestamp=tobj, **kw), ok=ok,
+                       err=lambda ex: (v, given, ex, True))
+        if op == "set":
             _, v, field, val = st
             if v not in live:
-                continue
+                return None
             e, given = live[v]
             new = dict(given)
-            try:
-                if field == "timestamp":
-                    new["ts"] = val
-                    e.timestamp = materialise_ts(val, c13)[1]
-                elif field == "duration":
-                    new["dur"] = val
-                    e.duration = materialise_dur(val, c13)[1]
-                elif field == "data":
-                    new["data"] = copy.deepcopy(val)
-                    e.data = copy.deepcopy(val)
-                elif field == "id":
-                    new["id"] = val
-                    e.id = val
-                else:
-                    raise ValueError("unknown field %r" % (field,))
+            if field == "timestamp":
+                new["ts"], obj = val, materialise_ts(val, c13)[1]
+            elif field == "duration":
+                new["dur"], obj = val, materialise_dur(val, c13)[1]
+            elif field == "data":
+                new["data"], obj = copy.deepcopy(val), mat_data(val)
+            elif field == "id":
+                new["id"], obj = val, val
+            else:
+                raise ValueError("unknown field %r" % (field,))
+
+            def ok(_):
                 live[v][1] = new
-            except ValueError:
-                raise
-            except Exception as ex:  # noqa: BLE001
-                failed = (v, new, ex)
-        elif op == "put":
+                if new["dur"]["kind"] == "bad":
+                    live.pop(v)
+            return _Op("set", var=v, writes=v, call=lambda: setattr(e, field, obj), ok=ok, err=lambda ex: (v, new, ex, False))
+        if op == "put":
             _, v, key, val = st
             if v not in live:
-                continue
+                return None
             target = live[v][0].data
-            target[key] = copy.deepcopy(val)
-            for w in live:          # Event(**event) hands the SAME data dict to the copy: every holder of it was "given" the key
-                if live[w][0].data is target:
-                    g = copy.deepcopy(live[w][1]["data"])
-                    g[key] = copy.deepcopy(val)
-                    live[w][1] = dict(live[w][1], data=g)
-        elif op == "parse":
+            value = mat_data(val)
+
+            def call():
+                target[key] = value
+
+            def ok(_):
+                for w in live:      # Event(**event) hands the SAME data dict to the copy: every holder of it was "given" the key
+                    if live[w][0].data is target:
+                        g = copy.deepcopy(live[w][1]["data"])
+                        g[key] = copy.deepcopy(val)
+                        live[w][1] = dict(live[w][1], data=g)
+            return _Op("put", var=v, writes=v, call=call, ok=ok, err=lambda ex: None)
+        if op == "parse":
             tspec, obj, _ = materialise_ts(st[1], c13)
-            try:
-                r = parse(obj)
+            k = self.k
+
+            def ok(r):
                 inst = tspec["instant"]
                 if inst is not None and 0 <= inst < c13.Y2100 and tspec["off"] % 1000 == 0 and abs(tspec["off"]) <= 14 * 3600 * 10**6:
                     want = (inst.numerator // inst.denominator) // 1000 * 1000
                     r = r if r.tzinfo else r.replace(tzinfo=timezone.utc)
                     got = c13.us_of_dt(r.astimezone(timezone.utc))
                     if got != want:
-                        findings.append((k, "C13:normalise", "_timestamp_parse(%s) is the instant %d, not the given instant %s "
-                                         "floored to ms (%d)" % (tspec.get("text", obj), got, inst, want)))
-            except Exception as ex:  # noqa: BLE001
+                        self.findings.append((k, "C13:normalise", "_timestamp_parse(%s) is the instant %d, not the given instant %s "
+                                              "floored to ms (%d)" % (tspec.get("text", obj), got, inst, want)))
+
+            def err(ex):
                 if tspec["instant"] is not None and 0 <= tspec["instant"] < c13.Y2100:
-                    findings.append((k, "C13:construct", "_timestamp_parse raised %s on a valid timestamp" % type(ex).__name__))
-            continue
-        elif op == "rebuild":
+                    self.findings.append((k, "C13:construct", "_timestamp_parse raised %s on a valid timestamp" % type(ex).__name__))
+            return _Op("parse", call=lambda: self.parse(obj), ok=ok, err=err, observe=False)
+        if op == "rebuild":
             _, out, v, how = st
             if v not in live:
-                continue
+                return None
             src = live[v][0]
+            hv = held_view(src)
+            if not (len(hv) == 4 and isinstance(hv[1], datetime) and isinstance(hv[3], timedelta)):
+                return None         # the source is already broken (reported by its own observation)
             given = {"id": src.id, "ts": {"form": "dt", "utc": c13.us_of_dt(src.timestamp), "off": 0},
-                     "dur": {"kind": "td", "us": src.duration // US}, "data": copy.deepcopy(src.data)}
-            try:
-                live[out] = [Event(**src) if how == "event" else Event(**json.loads(src.to_json_str())), given]
-            except Exception as ex:  # noqa: BLE001
-                failed = (out, given, ex)
-            if how == "json" and abs(src.duration // US) >= c13.TD_BOUND:
-                live.pop(out, None)         # outside the proved round trip: nothing to say about the copy
-                continue
+                     "dur": {"kind": "td", "us": src.duration // US}, "data": copy.deepcopy(live[v][1]["data"])}
+            big = how == "json" and abs(src.duration // US) >= c13.TD_BOUND    # outside the proved round trip: nothing to say about the copy
+
+            def ok(e):
+                if not big:
+                    live[out] = [e, given]
+
+            natural = how == "json" and has_special(given["data"])     # json.dumps refuses the data: the copy cannot exist
+
+            def err(ex):
+                if big:
+                    live.pop(out, None)
+                return None if big or natural else (out, given, ex, True)
+            return _Op("rebuild", var=out, writes=out, ok=ok, err=err, observe=not big,
+                       call=(lambda: Event(**src)) if how == "event" else (lambda: Event(**json.loads(src.to_json_str()))))
+        if op in ("json", "dict"):
+            v = st[1]
+            if v not in live:
+                return None
+            e = live[v][0]
+            return _Op(op, var=v, call=e.to_json_str if op == "json" else e.to_json_dict,
+                       ok=lambda r: self.results.append((v, op, r)), err=lambda ex: None)
+        raise ValueError("unknown step %r" % (st,))
+
+    def call_only(self, op, fault=None):
+        """the library call and nothing else -> ("ok", value, fired) | ("raised", exception, fired)"""
+        from . import twothreads as tt
+        fired = False
+        try:
+            if fault is None:
+                r = op.call()
+            else:
+                with tt.raising_once(callees(self.Event)[fault[0]], EXCEPTIONS[fault[1]], nth=fault[2]) as f:
+                    try:
+                        r = op.call()
+                    finally:
+                        fired = f.fired
+        except BaseException as ex:  # noqa: BLE001 -- a caller that survives everything
+            return ("raised", ex, fired)
+        return ("ok", r, fired)
+
+    def commit(self, op, outcome, fault=None):
+        """book-keeping of the harness after the call -> failed = (var, given, exception, is_new) | None"""
+        how, r, fired = outcome
+        if op.writes is not None:
+            # a result of to_json_str / to_json_dict that has not been judged yet (quiet steps) spoke about the values
+            # the event held THEN (put: every event sharing the data dict)
+            self.results = [x for x in self.results if x[0] != op.writes and op.name != "put"]
+        if fault is not None:
+            self.count("fault:%s:%s:%s" % (op.name, fault[0], {("raised", True): "raised", ("raised", False): "raised-on-its-own",
+                                                              ("ok", True): "swallowed", ("ok", False): "callee-not-reached"}[how, fired]))
+        if how == "raised":
+            # an INJECTED fault is not an input: there is no model answer for the failed call itself, only the
+            # expectation that nothing changed (the live events are re-observed against what they were given)
+            return None if fired else op.err(r)
+        op.ok(r)
+        return None
+
+    def execute(self, op, fault=None):
+        return self.commit(op, self.call_only(op, fault), fault)
+
+    def step(self, k, st):
+        self.k = k
+        self.pending = [(f[0], f[1], f[2], False) for f in self.pending]
+        quiet = st[0] == "quiet"
+        if quiet:
+            st = st[1]
+        if st[0] == "fault":
+            op = self.prepare(st[1])
+            if op is None:
+                return
+            failed = [self.execute(op, fault=st[2])]
+            observe = True       # also after a `parse`: what did the fault leave behind?
+        elif st[0] == "interleave":
+            failed, observe = self.interleave(k, st, quiet), True
         else:
-            raise ValueError("unknown step %r" % (st,))
-        # every live event, against the values IT was given last
-        todo = [(v, ev, given, None) for v, (ev, given) in live.items()]
-        if failed:
-            todo = [(failed[0], None, failed[1], failed[2])] + [t for t in todo if t[0] != failed[0] or op != "new"]
+            op = self.prepare(st)
+            if op is None:
+                return
+            failed = [self.execute(op)]
+            observe = op.observe
+        self.pending += [f for f in failed if f]
+        if any(f[1] == "C13:timeout" for f in self.findings):
+            return              # threads of the library are still stuck: an observation would hang as well
+        if observe and not quiet:
+            self.observe(k, self.pending)
+            self.pending = []
+
+    def interleave(self, k, st, quiet=False):
+        from . import twothreads as tt
+        _, sa, sb, callee, nth = st
+        opa = self.prepare(sa)
+        opb = self.prepare(sb)
+        if opa is None or opb is None:
+            return [self.execute(o) for o in (opa, opb) if o is not None]
+        failed = []
+        # thread A: the library call, then (callee no longer watched) the book-keeping; B: call + book-keeping
+        out = tt.interleave(lambda: self.call_only(opa), lambda: failed.append(self.execute(opb)),
+                            a_after=lambda res: failed.append(self.commit(opa, res.value)) if res.state == "ok" else None,
+                            pause=callees(self.Event)[callee], nth=nth,
+                            mid=None if quiet else (lambda: self.observe(k, [], skip={opa.writes} if opa.writes else set(),
+                                                                           phase="while A is suspended in %s" % callee)),
+                            wait_s=WAIT_S, blocked_s=1.0, mid_blocked_s=3.0)
+        self.count("threads:%s:%s" % (callee, "timeout" if out.timed_out else "B-blocked" if out.b_blocked else
+                                      "interleaved" if out.reached else "callee-not-reached"))
+        for name, r in (("A", out.a), ("B", out.b), ("mid", out.mid)):
+            if r.state == "raised":
+                raise r.exc
+        if out.timed_out:
+            self.findings.append((k, "C13:timeout", "thread(s) %s did not finish within %g s (A = %s suspended in its call %d of %s, "
+                                  "B = %s run meanwhile)" % (out.timed_out, WAIT_S, sa[:2], nth, callee, sb[:2])))
+        return failed
+
+    # -- observation --------------------------------------------------------------------------------------------
+    def observe(self, k, failed, skip=(), phase=None):
+        """every live event against the values IT was given last (+ the model's answer for a constructor / setter that
+        raised on its own)"""
+        c13 = self.c13
+        new_failed = {f[0] for f in failed if f[3]}
+        todo = [(f[0], None, f[1], f[2]) for f in failed]
+        todo += [(v, ev, given, None) for v, (ev, given) in self.live.items() if v not in new_failed and v not in skip]
+        where = "after step %d" % k + (" (%s)" % phase if phase else "")
         for v, ev, given, ex in todo:
             labels = common.Labels()
             tsm, dum = materialise_ts(given["ts"], c13), materialise_dur(given["dur"], c13)
-            case = (given["id"], tsm, dum, given["data"])
-            term = f"run_event_case {fc.coq_optz(given['id'])} {tsm[2]} {dum[2]} {labels.label(given['data'])}"
+            if dum[2] is None:
+                continue          # a value that is not a duration was refused: nothing to compare with
+            encodable = not has_special(given["data"])
+            case = (given["id"], tsm, dum, mat_data(given["data"]) if encodable else None)
+            lab = labels.label(case[3]) if encodable else None
             if ex is not None:
                 wire, obs = fc.res_wire_err(ex), {"error": type(ex).__name__}
             else:
-                wire, obs = observe_event(ev, c13, validator, labels)
-            observations.append((k, v, term, wire))
+                wire, obs = observe_event(ev, c13, self.validator, labels, encodable)
+            if encodable:
+                term = f"run_event_case {fc.coq_optz(given['id'])} {tsm[2]} {dum[2]} {lab}"
+                self.observations.append((k, v, term, wire))
             bad = c13.oracle_event(case, obs)
             if bad:
-                findings.append((k, bad[0], "event %s after step %d: %s" % (v, k, bad[1])))
-        if findings:
-            break
-    return observations, findings
+                self.findings.append((k, bad[0], "event %s %s: %s" % (v, where, bad[1])))
+            elif ex is None:
+                for r in [r for r in self.results if r[0] == v]:
+                    self.results.remove(r)
+                    try:
+                        again = ev.to_json_str() if r[1] == "json" else ev.to_json_dict()
+                    except Exception as ex2:  # noqa: BLE001
+                        again = "raises %s" % type(ex2).__name__
+                    same = again == r[2] if encodable else (isinstance(again, type(r[2])) and (
+                        r[1] == "json" or {f: again.get(f) for f in ("id", "timestamp", "duration")} ==
+                        {f: r[2].get(f) for f in ("id", "timestamp", "duration")}))
+                    if not same:
+                        self.findings.append((k, "C13:json-call", "event %s %s: %s returned %.300r but the event's JSON form is %.300r" % (
+                            v, where, "to_json_str()" if r[1] == "json" else "to_json_dict()", r[2], again)))
+        self.results = [r for r in self.results if r[0] in self.live and r[0] in skip]
+
+
+def run_script(script, c13, Event, parse, validator, stats=None):
+    """-> (observations, findings): observations [(step, var, term, wire)] (model term of the values the event was
+    given and what the implementation holds), findings [(step, signature, message)] of the property oracle.
+    The session runs in a daemon thread: a call that never returns (a lock leaked by a call that raised, two threads
+    waiting for each other) becomes the finding C13:timeout instead of a harness that hangs."""
+    import threading
+    s = _Session(c13, Event, parse, validator)
+    box = {}
+
+    def body():
+        try:
+            for k, st in enumerate(script):
+                s.step(k, st)
+                if s.findings:
+                    break
+        except BaseException as ex:  # noqa: BLE001 -- handed to the caller's thread
+            box["error"] = ex
+    t = threading.Thread(target=body, name="session", daemon=True)
+    t.start()
+    t.join(SESSION_S)
+    if t.is_alive():
+        s.findings = list(s.findings) + [(s.k, "C13:timeout", "step %d (%s) or the observation of the live events after it did not "
+                                          "return within %g s" % (s.k, json.dumps(script[s.k])[:200], SESSION_S))]
+    elif "error" in box:
+        raise box["error"]
+    if stats is not None:
+        stats.update(s.stats)
+    return list(s.observations), list(s.findings)
 
 
 # ---------------------------------------------------------------------------
@@ -404,6 +699,238 @@ def random_session(rng, tab):
     return script
 
 
+# ---------------------------------------------------------------------------
+# faults the caller survives, two threads
+
+def str_ts(utc_us, off_min=0, zone="hm"):
+    """ISO-8601 text of the instant in the given offset, 6 fraction digits"""
+    d = EPOCH_NAIVE + timedelta(microseconds=utc_us + off_min * 60_000_000)
+    z = "Z" if zone == "Z" and off_min == 0 else "%s%02d:%02d" % ("-" if off_min < 0 else "+", abs(off_min) // 60, abs(off_min) % 60)
+    return {"form": "str", "text": d.strftime("%Y-%m-%dT%H:%M:%S.") + "%06d" % d.microsecond + z, "instant": [utc_us, 1],
+            "off": off_min * 60_000_000}
+
+
+# strings of four different instants (offsets +01:00, -14:00, Z, +05:30; years 2020, 1999, 2077, 2031), off the ms grid
+STRS = [str_ts(BASE + 111_999, 60), str_ts(BASE + 5_222_999, 60), str_ts(946_735_199_999_999, -840), str_ts(3_393_212_827_007_007, 0, "Z"),
+        str_ts(1_936_057_089_123_456, 330)]
+OKDATA = {"label": "ok"}
+UNENCODABLE = ["bigint", "deep", "bytes", "cycle", "tuplekey", "set"]
+INJECTED = ["MemoryError", "RecursionError", "KeyboardInterrupt", "ValueError", "TypeError", "OSError"]
+BAD_DURS = [{"kind": "float", "hex": "nan"}, {"kind": "float", "hex": "inf"}, {"kind": "float", "hex": (1e300).hex()},
+            {"kind": "bad", "what": "str"}, {"kind": "bad", "what": "fraction"}, {"kind": "bad", "what": "none"},
+            {"kind": "bad", "what": "complex"}, {"kind": "int", "s": 10**14}, {"kind": "int", "s": -86399999913601}]
+BAD_TS = [{"form": "str", "text": "garbage", "instant": None, "off": 0}, {"form": "str", "text": "2021-02-29T00:00:00Z", "instant": None, "off": 0},
+          {"form": "str", "text": "", "instant": None, "off": 0}, {"form": "str", "text": "0001-01-01T00:00:00+01:00", "instant": None, "off": 0},
+          {"form": "str", "text": "9999-12-31T23:59:59.999999-00:01", "instant": None, "off": 0}]
+
+
+def fault_sessions(tab):
+    """FAULTS: the callee of an Event method raises once and the caller carries on.  Every session has the event the
+    faulty call is made on / from (a) and a bystander (w); every live event is re-observed after every step."""
+    out = []
+    fl = DURS[3]
+    gapz = tab[0][0]
+    wall = ambiguous_walls(*tab[0][1:])[0][3]
+    n = 0
+    # (1) serialising: the encoder (json.dumps / JSONEncoder.encode) or the dict copy raises once, injected
+    for callee in ("json.dumps", "json.encode", "Event.copy"):
+        for op in (["json", "a"], ["dict", "a"], ["rebuild", "c", "a", "json"], ["rebuild", "c", "a", "event"]):
+            exc = INJECTED[n % len(INJECTED)]
+            n += 1
+            out.append([["new", "a", 7, STRS[4], {"kind": "float", "hex": (12.5).hex()}, {"label": "x"}], ["new", "w", 8, STRS[0], fl, {}],
+                        ["fault", op, [callee, exc, 1]], ["set", "a", "data", OKDATA], op, ["json", "a"]])
+            out.append([["quiet", ["new", "a", None, zts(gapz, wall, n % 2), DURS[1], {"label": "x"}]], ["quiet", ["fault", op, [callee, exc, 1]]],
+                        ["dict", "a"], ["rebuild", "d", "a", "json"]])
+    # (2) serialising: data the encoder of this interpreter refuses (the natural ways), then the payload is dropped
+    for j, kind in enumerate(UNENCODABLE):
+        x = {"n": {"$": kind}}
+        out.append([["new", "a", 7, STRS[4], {"kind": "float", "hex": (12.5).hex()}, x], ["json", "a"], ["dict", "a"], ["rebuild", "c", "a", "json"],
+                    ["rebuild", "d", "a", "event"], ["set", "a", "data", OKDATA], ["json", "a"], ["rebuild", "c", "a", "json"]])
+        out.append([["new", "a", j, STRS[j % 4], DURS[j % len(DURS)], {"k": [1, {"deeper": {"$": kind}}]}], ["new", "w", 8, STRS[0], fl, {"app": "w"}],
+                    ["quiet", ["json", "a"]], ["quiet", ["rebuild", "c", "a", "json"]], ["put", "a", "k", 1], ["json", "a"]])
+        out.append([["new", "a", None, {"form": "dt", "utc": BASE + 999, "off": -210 * 60_000_000}, DURS[2], {"app": "a"}], ["put", "a", "raw", {"$": kind}],
+                    ["json", "a"], ["set", "a", "timestamp", STRS[1]], ["put", "a", "raw", None], ["json", "a"], ["rebuild", "c", "a", "json"]])
+    # (3) parsing: iso8601.parse_date raises once inside the constructor / the setter / _timestamp_parse / Event(**json);
+    # the same call is then made again, straight away (quiet) and after an observation
+    for quiet in (True, False):
+        for j, exc in enumerate(INJECTED[:4]):
+            q = (lambda st: ["quiet", st]) if quiet else (lambda st: st)
+            f = ["iso8601.parse_date", exc, 1]
+            s0, s1, s2 = STRS[j % 4], STRS[(j + 1) % 4], STRS[(j + 2) % 4]
+            out.append([q(["new", "p", 1, s0, fl, {}]), q(["fault", ["new", "a", 2, s1, fl, {}], f]), ["new", "a", 2, s1, fl, {}],
+                        ["new", "b", 3, s1, fl, {}], ["new", "c", 4, s0, fl, {}]])
+            out.append([q(["new", "a", 1, s0, fl, {}]), q(["fault", ["set", "a", "timestamp", s1], f]), ["set", "a", "timestamp", s1],
+                        ["new", "b", 3, s1, fl, {}], q(["fault", ["set", "b", "timestamp", s2], f]), ["new", "c", 4, s2, fl, {}]])
+            out.append([q(["parse", s0]), q(["fault", ["parse", s1], f]), ["parse", s1], q(["new", "a", 1, s1, fl, {}]),
+                        q(["fault", ["rebuild", "c", "a", "json"], f]), ["rebuild", "c", "a", "json"], ["new", "b", 2, s0, fl, {}]])
+    # a time zone object of the caller's whose utcoffset raises once; the warning about a naive timestamp raising once
+    for j, exc in enumerate(INJECTED[:3]):
+        out.append([["new", "a", 1, zts(gapz, wall, 0), fl, {}], ["fault", ["set", "a", "timestamp", zts(gapz, wall, 1)], ["zone.utcoffset", exc, 1 + j % 2]],
+                    ["set", "a", "timestamp", zts(gapz, wall, 1)], ["fault", ["new", "b", 2, zts(gapz, wall, 0), fl, {}], ["zone.utcoffset", exc, 1]],
+                    ["new", "b", 2, zts(gapz, wall, 0), fl, {}]])
+        out.append([["new", "a", 1, STRS[0], fl, {}], ["fault", ["set", "a", "timestamp", {"form": "naive", "local": BASE + 1}], ["logging.warning", exc, 1]],
+                    ["fault", ["new", "b", 2, {"form": "naive", "local": BASE + 2001}, fl, {}], ["logging.warning", exc, 1]],
+                    ["new", "b", 2, {"form": "naive", "local": BASE + 2001}, fl, {}]])
+    # (4) assignments that fail on their own: not a duration / not a timestamp; the event keeps what it had
+    steps = [["new", "a", 5, STRS[1], fl, {"app": "a"}], ["new", "w", 6, zts(gapz, wall, 1), DURS[5], {}]]
+    for du in BAD_DURS:
+        steps.append(["set", "a", "duration", du])
+    for ts in BAD_TS:
+        steps.append(["set", "a", "timestamp", ts])
+    steps += [["rebuild", "c", "a", "json"], ["set", "a", "duration", DURS[6]]]
+    out.append(steps)
+    out.append([["new", "a", 5, STRS[2], DURS[1], {}]] + [["quiet", ["set", "a", "duration", du]] for du in BAD_DURS[:7]]
+               + [["quiet", ["set", "a", "timestamp", ts]] for ts in BAD_TS] + [["json", "a"]])
+    # constructors that fail half-way (timestamp accepted, duration refused; and the other way round) beside live events
+    out.append([["new", "w", 6, STRS[3], fl, {"app": "w"}]] + [["new", "x%d" % j, j, STRS[j % 4], du, {"app": "w"}] for j, du in enumerate(BAD_DURS)]
+               + [["new", "y%d" % j, j, ts, fl, {}] for j, ts in enumerate(BAD_TS)] + [["rebuild", "c", "w", "event"]])
+    return out
+
+
+def _ser(v):
+    return [["json", v], ["dict", v], ["rebuild", "r" + v, v, "json"], ["rebuild", "r" + v, v, "event"]]
+
+
+def thread_sessions(tab):
+    """THREADS: thread A is suspended inside a callee, thread B runs a complete operation (harness/twothreads.py).
+    Every string-parsing entry point x every string-parsing entry point (same string / different strings; with and
+    without the observations in between), every serialising entry point x (serialising the same event, another
+    event, assigning to / building another event)."""
+    out = []
+    fl = DURS[3]
+    n = 0
+
+    def parsing(kind, v, s):
+        return {"new": ["new", v, 1 + n % 3, s, fl, {}], "set": ["set", v, "timestamp", s], "parse": ["parse", s],
+                "json": ["rebuild", v + "2", v, "json"]}[kind]
+    for ka in ("new", "set", "parse", "json"):
+        for kb in ("new", "set", "parse", "json"):
+            for same in (True, False):
+                n += 1
+                s0, sa = STRS[n % 4], STRS[(n + 1) % 4]
+                sb = sa if same else STRS[(n + 2) % 4]
+                pre = [["new", "p", 1, s0, fl, {}]]
+                # events that a set / Event(**json) step works on: built from DATETIMES, so that no string is parsed for them
+                pre += [["new", "a", 2, {"form": "dt", "utc": sa["instant"][0] if ka == "json" else BASE, "off": 0}, fl, {}]] if ka in ("set", "json") else []
+                pre += [["new", "b", 3, {"form": "dt", "utc": sb["instant"][0] if kb == "json" else BASE + 1000, "off": 0}, fl, {}]] if kb in ("set", "json") else []
+                il = ["interleave", parsing(ka, "a", sa), parsing(kb, "b", sb), "iso8601.parse_date", 1]
+                post = [["new", "c", 4, sb, fl, {}], ["new", "d", 5, sa, fl, {}], ["parse", sb]]
+                out.append(pre + [il] + post)
+                out.append([["quiet", st] for st in pre] + [["quiet", il]] + post)
+    # serialising
+    base = [["new", "a", 1, STRS[0], fl, {"app": "a"}], ["new", "b", 2, STRS[1], DURS[1], {"app": "b"}]]
+    for callee, ops in (("json.dumps", [_ser("a")[0], _ser("a")[2]]), ("json.encode", [_ser("a")[0], _ser("a")[2]]),
+                        ("Event.copy", _ser("a")[:3])):
+        for opa in ops:
+            for opb in _ser("a") + [["json", "b"], ["set", "b", "timestamp", STRS[2]], ["set", "b", "duration", DURS[2]], ["new", "c", 3, STRS[3], fl, {}],
+                                    ["put", "b", "k", 1]]:
+                if opb[1] == opa[1] and opb[0] == "rebuild" and opa[0] == "rebuild":
+                    opb = ["rebuild", "s" + opb[2], opb[2], opb[3]]
+                out.append(base + [["interleave", opa, opb, callee, 1], ["json", "a"], ["json", "b"]])
+    # the caller's tzinfo object / the naive-timestamp warning as the place where A is suspended: fold twins, two naive times
+    for z, t, before, after in tab[:4]:
+        w = ambiguous_walls(t, before, after)[0][3]
+        out.append([["interleave", ["new", "a", 1, zts(z, w, 0), fl, {}], ["new", "b", 2, zts(z, w, 1), fl, {}], "zone.utcoffset", 1],
+                    ["interleave", ["set", "a", "timestamp", zts(z, w, 1)], ["set", "b", "timestamp", zts(z, w, 0)], "zone.utcoffset", 1]])
+    out.append([["interleave", ["new", "a", 1, {"form": "naive", "local": BASE + 1999}, fl, {}], ["new", "b", 2, {"form": "naive", "local": BASE + 61_000_999}, fl, {}],
+                 "logging.warning", 1], ["new", "c", 3, {"form": "naive", "local": BASE + 61_000_999}, fl, {}]])
+    return out
+
+
+def rand_plain_step(rng, names, tab, fresh):
+    """one ordinary step for a fault / interleave step; `fresh`: name for an event it may create"""
+    r = rng.random()
+    s = copy.deepcopy(rng.choice(STRS)) if rng.random() < 0.7 else rand_ts(rng, tab)
+    if r < 0.25 or not names:
+        return ["new", fresh, rng.choice([None, 1, 7]), s, rng.choice(DURS), rng.choice(DATA)]
+    v = rng.choice(names)
+    if r < 0.45:
+        return ["set", v, "timestamp", s]
+    if r < 0.5:
+        return ["set", v, "duration", rng.choice(DURS + BAD_DURS)]
+    if r < 0.6:
+        return ["parse", s]
+    if r < 0.75:
+        return ["json", v]
+    if r < 0.82:
+        return ["dict", v]
+    if r < 0.95:
+        return ["rebuild", fresh, v, rng.choice(["json", "event"])]
+    return ["put", v, "raw", rng.choice([{"$": k} for k in UNENCODABLE] + [None, 1])]
+
+
+def _creates(st):
+    return st[1] if st[0] in ("new", "rebuild") else None
+
+
+def _touches(st):
+    return {"new": [], "set": [st[1]], "parse": [], "json": [], "dict": [], "put": [st[1]], "rebuild": []}[st[0]]
+
+
+def random_fault_thread_session(rng, tab):
+    script, names = [], []
+    for j in range(rng.randrange(2, 4)):
+        script.append(["new", "e%d" % j, rng.choice([None, 1, 7]), copy.deepcopy(rng.choice(STRS)) if rng.random() < 0.5 else rand_ts(rng, tab),
+                       rng.choice(DURS), rng.choice(DATA)])
+        names.append("e%d" % j)
+    for _ in range(rng.randrange(2, 6)):
+        r = rng.random()
+        fresh = "e%d" % len(names)
+        if r < 0.45:
+            st = rand_plain_step(rng, names, tab, fresh)
+            callee = rng.choice({"new": ["iso8601.parse_date", "zone.utcoffset", "logging.warning"], "set": ["iso8601.parse_date", "zone.utcoffset"],
+                                 "parse": ["iso8601.parse_date"], "json": ["json.dumps", "json.encode", "Event.copy"], "dict": ["Event.copy", "copy.copy"],
+                                 "rebuild": ["json.dumps", "Event.copy", "iso8601.parse_date", "copy.deepcopy"], "put": ["copy.copy"]}[st[0]])
+            step = ["fault", st, [callee, rng.choice(INJECTED), rng.choice([1, 1, 1, 2])]]
+            script.append(["quiet", step] if rng.random() < 0.5 else step)
+            if rng.random() < 0.6:
+                script.append(copy.deepcopy(st))        # the caller tries again
+                if _creates(st):
+                    names.append(fresh)
+        elif r < 0.85:
+            sa = rand_plain_step(rng, names, tab, fresh)
+            sb = rand_plain_step(rng, names, tab, fresh + "b")
+            # B does not assign to the event A is working on (the sequential answer would depend on the order)
+            wa = set(_touches(sa)) | ({sa[1]} if sa[0] in ("json", "dict") else set()) | ({sa[2]} if sa[0] == "rebuild" else set())
+            if set(_touches(sb)) & wa or (set(_touches(sa)) & ({sb[1]} if sb[0] in ("json", "dict") else {sb[2]} if sb[0] == "rebuild" else set())):
+                sb = ["parse", copy.deepcopy(rng.choice(STRS))]
+            callee = rng.choice({"new": ["iso8601.parse_date", "zone.utcoffset"], "set": ["iso8601.parse_date", "zone.utcoffset"],
+                                 "parse": ["iso8601.parse_date"], "json": ["json.dumps", "json.encode", "Event.copy"], "dict": ["Event.copy"],
+                                 "rebuild": ["json.dumps", "Event.copy", "iso8601.parse_date"], "put": ["json.dumps"]}[sa[0]])
+            step = ["interleave", sa, sb, callee, rng.choice([1, 1, 1, 2])]
+            script.append(["quiet", step] if rng.random() < 0.4 else step)
+            for st in (sa, sb):
+                if _creates(st):
+                    names.append(_creates(st))
+        else:
+            st = rand_plain_step(rng, names, tab, fresh)
+            script.append(st)
+            if _creates(st):
+                names.append(fresh)
+    return script
+
+
+def simplify_wrappers(script, fails):
+    """after the list shrink: try to do without each `quiet`, and to replace an interleave step by its two steps in a
+    row (if the script still fails, the threads were not needed: the failing input is the simpler, sequential one)"""
+    cur = list(script)
+    for _ in range(12):
+        for i, st in enumerate(cur):
+            cands = []
+            if st[0] == "quiet":
+                cands.append(cur[:i] + [st[1]] + cur[i + 1:])
+            inner = st[1] if st[0] == "quiet" else st
+            if inner[0] == "interleave":
+                cands.append(cur[:i] + [inner[1], inner[2]] + cur[i + 1:])
+            hit = next((c for c in cands if fails(c)), None)
+            if hit is not None:
+                cur = hit
+                break
+        else:
+            break
+    return cur
+
+
 def shrink_script(script, fails):
     return common.shrink_list(script, fails, max_steps=120)
 
@@ -411,7 +938,31 @@ def shrink_script(script, fails):
 def make_runner(c13, Event, parse, validator):
     """call BEFORE the check has called anything in aw_core (harness/freshproc.py)"""
     from .freshproc import Fresh
-    return Fresh(lambda script: run_script(script, c13, Event, parse, validator))
+    callees(Event)          # patch sites of the callees: computed once, in the snapshot
+
+    def handler(script):
+        stats = {}
+        observations, findings = run_script(script, c13, Event, parse, validator, stats)
+        return observations, findings, stats
+    return Fresh(handler, timeout_s=120)
+
+
+def flat_steps(script):
+    """the ordinary steps inside quiet / fault / interleave wrappers, with the wrapper names"""
+    for st in script:
+        wrap = []
+        todo = [(st, wrap)]
+        while todo:
+            x, w = todo.pop(0)
+            if x[0] == "quiet":
+                todo.append((x[1], w + ["quiet"]))
+            elif x[0] == "fault":
+                todo.append((x[1], w + ["fault:" + x[2][0] + ":" + x[2][1]]))
+            elif x[0] == "interleave":
+                todo.append((x[1], w + ["thread-A-suspended-in:" + x[3]]))
+                todo.append((x[2], w + ["thread-B"]))
+            else:
+                yield x, w
 
 
 def run(ck, runner):
@@ -420,26 +971,50 @@ def run(ck, runner):
     ck.coverage["history_zones"] = sorted({z[-1] for z, _, _, _ in tab})
     n = 250 if ck.tier == "quick" else 8000
     sessions = boundary_sessions(tab) + [random_session(ck.rng, tab) for _ in range(n)]
+    # faults the caller survives / two threads (round 6)
+    n_ft = 150 if ck.tier == "quick" else 4000
+    fs, ts = fault_sessions(tab), thread_sessions(tab)
+    extra = [x for pair in zip(fs, ts) for x in pair] + fs[len(ts):] + ts[len(fs):]      # alternating
+    extra += [random_fault_thread_session(ck.rng, tab) for _ in range(n_ft)]
+    ck.coverage["history_fault_and_thread_sessions"] = len(extra)
+    sessions += extra
     terms, wires, descs = [], [], []
+    seen = set()
+    timeouts = 0
     for si, script in enumerate(sessions):
-        observations, findings = runner.run(script)
+        if timeouts >= 3:        # every further hanging session would cost SESSION_S: three replays are enough
+            ck.count("history:sessions-not-run-after-3-timeouts")
+            continue
+        observations, findings, stats = runner.run(script)
+        timeouts += any(f[1] == "C13:timeout" for f in findings)
         ck.count("history:sessions")
-        for st in script:
+        for key, cnt in stats.items():
+            ck.count("history:" + key, cnt)
+        for st, wrap in flat_steps(script):
             ck.count("history:step:" + st[0] + (":" + st[2] if st[0] == "set" else ""))
+            for w in wrap:
+                ck.count("history:" + w.split(":")[0] + ":" + st[0])
             tss = [a for a in st if isinstance(a, dict) and "form" in a]
             for t in tss:
                 ck.count("history:ts:" + t["form"] + (":fold=%d" % t["fold"] if t["form"] == "zone" else ""))
         for (k, v, term, wire) in observations:
+            ck.note_case(["history", si, k, v, term], nontrivial=k > 0)
+            key = (term, tuple(wire))
+            if key in seen:          # the model is a pure function of the term: the same term against the same wire again
+                ck.count("history:observations-identical-to-an-earlier-one")
+                continue
+            seen.add(key)
             terms.append(term)
             wires.append(wire)
             descs.append("history session %d, event %s after step %d of %s" % (si, v, k, json.dumps(script)[:700]))
-            ck.note_case(["history", si, k, v, term], nontrivial=k > 0)
         if findings:
             k, sig, msg = findings[0]
 
             def fails(sc, _sig=sig):
                 return any(s == _sig for _, s, _ in runner.run(sc)[1])
-            small = shrink_script(script, fails) if len(ck.violations) < 3 else script
+            do_shrink = len(ck.violations) < 3 and sig != "C13:timeout"      # every evaluation of a hanging script costs WAIT_S
+            small = shrink_script(script, fails) if do_shrink else script
+            small = simplify_wrappers(small, fails) if do_shrink else small
             f2 = [f for f in runner.run(small)[1] if f[1] == sig]
             k2, _, msg2 = f2[0] if f2 else (k, sig, msg)
             ck.failing_input(sig, "step %d of a sequence of calls in one process: %s" % (k2, msg2),
